@@ -20,6 +20,7 @@ func All() map[string]orch.Property {
 		&C02{},
 		&C03{},
 		&C07{},
+		&C08{},
 		&C10{},
 		&C11{},
 		&C12{},
